@@ -5,6 +5,14 @@ Streams (all from chk.rng):
   B  small designs whose registers / combinational outputs exist twice: as a circuit and as the documented
      process; both variants must give the same observations (and the directed testbench-order / tick-sampling cases)
   T  time: Period arithmetic, clock toggle instants, delay resumption, run_until deadlines
+  M  (implementation only) a memory written in one domain and read in another / combinationally; order-independence
+  W  (implementation only) several memory rows written in ONE delta cycle - 1-3 write ports of one domain with
+     different addresses, idle ports (en = 0 / no granule enabled), ports writing the value already there, or an
+     added process setting 1-3 rows before it yields - observed through asynchronous read ports right after the
+     clock edge (add_clock + tick(), or the testbench toggling the clock: after `set(clk)` returns) / after the
+     `set()` that wakes the writer; with and without other logic (counter, synchronous read port) in the written
+     domain.  Expected values are the array semantics computed by the harness (a list of rows); every order of the
+     ready processes must give exactly that trace.
 Every scenario of A and B is run on the real engine under the native order, the canonical order, its reverse and
 N seeded shuffles of `_processes`, `pending` and `_active_triggers` (re-drawn at every iteration); all observation
 traces must be identical. The trace is then compared with the Lean model (run under two opposite schedules) and,
@@ -958,6 +966,261 @@ def time_job(args):
 
 
 # ------------------------------------------------------------------------------------------------
+# stream W (implementation only): several memory rows written in ONE delta cycle, seen through asynchronous
+# read ports.  The expectation is the array semantics, computed here from a list of rows: after the delta in
+# which the writes happen, every asynchronous read port shows the row its address selects *after all writes of
+# that delta*, whatever else is (or is not) scheduled in the delta and in whichever order.
+
+def gen_memwrite(rng):
+    """abstract scenario (plain data, so that it can be stored in a replay)"""
+    w = rng.randint(1, 8)
+    depth = rng.choice([2, 2, 3, 4, 4, 5, 8])
+    signed_ = rng.random() < 0.2
+    init = [rng.getrandbits(w) for _ in range(depth)]
+    trigger = rng.choice(["clock", "clock", "hand", "hand", "process"])
+    n_wp = 0 if trigger == "process" and rng.random() < 0.6 else rng.choice([1, 2, 2, 2, 3])
+    grans = []
+    for _ in range(n_wp):
+        g = rng.choice([None, None, 1] + [d for d in (2, 4) if w % d == 0 and d < w])
+        grans.append(None if signed_ else g)
+    other = rng.choice(["none", "none", "none", "counter", "syncread", "both"])
+    n_rc = rng.choice([1, 1, 2])
+    scn = {"w": w, "depth": depth, "signed": signed_, "init": init, "trigger": trigger, "grans": grans, "other": other,
+           "n_rc": n_rc, "edge": rng.choice(["pos", "pos", "neg"]), "period": rng.choice([2, 7, 10, 1000]), "steps": []}
+    style = rng.choice(["idle-second", "random", "random", "same-value"])
+    for _ in range(rng.randint(3, 9)):
+        st = {"wp": [], "rc": [], "rows": []}
+        for k in range(n_wp):
+            nen = 1 if grans[k] is None else w // grans[k]
+            if rng.random() < 0.75:
+                if style == "idle-second" and k > 0:
+                    en = 0 if rng.random() < 0.8 else rng.getrandbits(nen)
+                else:
+                    en = rng.choice([0, (1 << nen) - 1, rng.getrandbits(nen)])
+                st["wp"].append((k, rng.randrange(depth), ("same" if style == "same-value" and k > 0 and rng.random() < 0.7
+                                                           else rng.getrandbits(w)), en))
+        for k in range(n_rc):
+            if rng.random() < 0.5:
+                st["rc"].append((k, rng.randrange(depth)))
+        if trigger == "process":
+            # the rows one wake-up of the writer process sets, in order; "same" = the value the row already has
+            for _k in range(rng.choice([1, 2, 2, 3, 3])):
+                st["rows"].append((rng.randrange(depth), "same" if rng.random() < 0.45 else rng.getrandbits(w)))
+        st["fire"] = rng.random() < 0.9
+        scn["steps"].append(st)
+    return scn
+
+
+def memwrite_expected(scn):
+    """(trace the testbench must record, statistics) under the array semantics"""
+    w, depth = scn["w"], scn["depth"]
+    full = (1 << w) - 1
+    rows = list(scn["init"])
+    wp = [[0, 0, 0] for _ in scn["grans"]]
+    rc = [0] * scn["n_rc"]
+    rs_data = 0
+    trace = []
+    stats = {"deltas": 0, "multi_row": 0, "last_unchanged_earlier_changed": 0, "max_rows": 0}
+
+    def obs(i):
+        trace.append((i, [rows[a] for a in rc], list(rows)) + ((rs_data,) if scn["other"] in ("syncread", "both") else ()))
+
+    for i, st in enumerate(scn["steps"]):
+        for k, a, d, en in st["wp"]:
+            wp[k] = [a, rows[a] if d == "same" else d, en]
+        for k, a in st["rc"]:
+            rc[k] = a
+        obs(i)                                            # after the sets: a testbench's set() has settled
+        if not st["fire"]:
+            continue
+        queue = {}                                        # row -> value, in the order in which rows are first written
+        if scn["trigger"] == "process":
+            # no clock edge: the write ports do nothing; the writer process sets rows ("same": the committed value)
+            for a, v in st["rows"]:
+                queue[a] = rows[a] if v == "same" else v
+        else:
+            new_rs = rows[0]                              # the synchronous read port: row 0, enabled, not transparent
+            for (a, d, en), g in zip(wp, scn["grans"]):
+                if g is None:
+                    mask = full if en else 0
+                else:
+                    mask = 0
+                    for b in range(w // g):
+                        if (en >> b) & 1:
+                            mask |= ((1 << g) - 1) << (b * g)
+                cur = queue.get(a, rows[a])
+                queue[a] = (d & mask) | (cur & ~mask & full)
+        if queue:
+            stats["deltas"] += 1
+            stats["max_rows"] = max(stats["max_rows"], len(queue))
+            if len(queue) >= 2:
+                stats["multi_row"] += 1
+                last = list(queue)[-1]
+                if queue[last] == rows[last] and any(queue[a] != rows[a] for a in queue):
+                    stats["last_unchanged_earlier_changed"] += 1
+        for a, v in queue.items():
+            rows[a] = v
+        if scn["trigger"] != "process" and scn["other"] in ("syncread", "both"):
+            rs_data = new_rs
+        obs(i)                                            # after the edge / the wake-up of the writer has settled
+        if scn["trigger"] == "hand":
+            obs(i)                                        # and again after the clock went back
+    return trace, stats
+
+
+def run_memwrite(scn, mode, oseed):
+    from amaranth.hdl import Module, Signal, ClockDomain, Period, signed, unsigned
+    from amaranth.lib.memory import Memory
+    from amaranth.sim import Simulator
+    w, depth = scn["w"], scn["depth"]
+    full = (1 << w) - 1
+    m = Module()
+    cd = ClockDomain("sync", clk_edge=scn["edge"], reset_less=True)
+    m.domains += cd
+    shape = signed(w) if scn["signed"] else unsigned(w)
+
+    def tosh(v):
+        return v - (1 << w) if scn["signed"] and v >> (w - 1) else v
+    m.submodules.mem = mem = Memory(shape=shape, depth=depth, init=[tosh(v) for v in scn["init"]])
+    wps = [mem.write_port(domain="sync", granularity=g) for g in scn["grans"]]
+    rcs = [mem.read_port(domain="comb") for _ in range(scn["n_rc"])]
+    rs = None
+    if scn["other"] in ("syncread", "both"):
+        rs = mem.read_port(domain="sync")
+    if scn["other"] in ("counter", "both"):
+        ctr = Signal(8, name="ctr")
+        m.d.sync += ctr.eq(ctr + 1)
+    go = Signal(name="go")
+    sim = Simulator(m)
+    eng = sim._engine
+    added = []
+    if scn["trigger"] == "clock":
+        before = {id(p) for p in eng._processes}
+        sim.add_clock(Period(fs=scn["period"]), domain=cd)
+        added += [p for p in eng._processes if id(p) not in before]
+    cur_rows = {"rows": []}
+    if scn["trigger"] == "process":
+        async def writer(ctx):
+            async for _v in ctx.changed(go):
+                for a, v in cur_rows["rows"]:                 # several rows (or one row twice) before yielding
+                    ctx.set(mem.data[a], tosh(v))
+        before = {id(p) for p in eng._processes}
+        sim.add_process(writer)
+        added += [p for p in eng._processes if id(p) not in before]
+    trace = []
+    active, idle = (1, 0) if scn["edge"] == "pos" else (0, 1)
+
+    async def tb(ctx):
+        def obs(i):
+            rec = (i, [int(ctx.get(r.data)) & full for r in rcs], [int(ctx.get(mem.data[a])) & full for a in range(depth)])
+            if rs is not None:
+                rec += (int(ctx.get(rs.data)) & full,)
+            trace.append(rec)
+        if scn["trigger"] == "hand":
+            ctx.set(cd.clk, idle)
+        for i, st in enumerate(scn["steps"]):
+            for k, a, d, en in st["wp"]:
+                ctx.set(wps[k].addr, a)
+                ctx.set(wps[k].data, tosh(int(ctx.get(mem.data[a])) & full if d == "same" else d))
+                ctx.set(wps[k].en, en)
+            for k, a in st["rc"]:
+                ctx.set(rcs[k].addr, a)
+            obs(i)
+            if not st["fire"]:
+                continue
+            if scn["trigger"] == "clock":
+                await ctx.tick()
+            elif scn["trigger"] == "hand":
+                ctx.set(cd.clk, active)
+                obs(i)                                    # set() returns after everything it caused has settled
+                ctx.set(cd.clk, idle)
+            else:
+                # "same": the value the row holds now (a process cannot call get(); the testbench resolves it)
+                cur_rows["rows"] = [(a, int(ctx.get(mem.data[a])) & full if v == "same" else v) for a, v in st["rows"]]
+                ctx.set(go, 1 - int(ctx.get(go)))
+            obs(i)
+    sim.add_testbench(tb)
+    install_order(sim, added, mode, oseed)
+    try:
+        sim.run()
+        return ("ok", trace)
+    except Hang:
+        return ("hang", trace)
+    except Exception as e:
+        return ("raise:" + errkind(e), trace + [("error", repr(e)[:200])])
+
+
+def memwrite_job(args):
+    seed, n, n_perm = args
+    rng = random.Random(seed)
+    out = []
+    for k in range(n):
+        scn = gen_memwrite(rng)
+        case = {"seed": seed, "index": k, "per_job": n, "scn": scn}
+        orders = [("sorted", 0), ("native", 0), ("reverse", 0)] + [("shuffle", rng.getrandbits(32)) for _ in range(n_perm)]
+        try:
+            exp, stats = memwrite_expected(scn)
+            case["expected"] = [list(x) for x in exp]
+            case["stats"] = stats
+            case["runs"] = []
+            for mode, oseed in orders:
+                status, trace = run_memwrite(scn, mode, oseed)
+                case["runs"].append(((mode, oseed), status, [list(x) for x in trace]))
+        except Exception:
+            import traceback
+            case["harness_error"] = traceback.format_exc()[-1500:]
+        out.append(case)
+    return out
+
+
+def judge_memwrite(chk, case):
+    scn = case["scn"]
+    base = {"stream": "memwrite", "job_seed": case["seed"], "index": case["index"], "per_job": case["per_job"], "scenario": scn}
+    if "harness_error" in case:
+        chk.not_shown("the harness could not run a memory-write scenario", dict(base, error=case["harness_error"]))
+        return
+    runs, exp, stats = case["runs"], case["expected"], case["stats"]
+    chk.count(len(runs))
+    chk.hist("memwrite: trigger of the writes", {"clock": "add_clock + tick()", "hand": "testbench toggles the clock",
+                                                 "process": "add_process sets rows"}[scn["trigger"]])
+    chk.hist("memwrite: write ports in the domain", len(scn["grans"]))
+    chk.hist("memwrite: other logic in the written domain", scn["other"])
+    chk.hist("memwrite: asynchronous read ports", scn["n_rc"])
+    chk.hist("memwrite: most rows queued in one delta", stats["max_rows"])
+    chk.hist("memwrite: deltas with >= 2 rows queued", stats["multi_row"])
+    chk.hist("memwrite: scenario has a delta whose last queued row is unchanged while an earlier one changes",
+             stats["last_unchanged_earlier_changed"] > 0)
+    (ref_order, ref_status, ref) = runs[0]
+    for order, status, tr in runs:
+        if status != "ok":
+            chk.violation(f"simulating a memory with several writes in one delta cycle: {status} under order {order}",
+                          dict(base, kind="memwrite-status", order=order, trace=tr[-5:], classes=[]))
+            return
+    for order, status, tr in runs[1:]:
+        if tr != ref:
+            k = next((i for i, (x, y) in enumerate(zip(ref, tr)) if x != y), min(len(ref), len(tr)))
+            chk.violation(f"memory rows written in one delta cycle: the observations depend on the iteration order of the ready "
+                          f"processes ({order} differs from {ref_order} at observation {k})",
+                          dict(base, kind="memwrite-schedule", order_a=ref_order, order_b=order, first_difference=k,
+                               obs_a=ref[k] if k < len(ref) else None, obs_b=tr[k] if k < len(tr) else None, classes=[]))
+            return
+    if ref != exp:
+        k = next((i for i, (x, y) in enumerate(zip(ref, exp)) if x != y), min(len(ref), len(exp)))
+        got, want = (ref[k] if k < len(ref) else None), (exp[k] if k < len(exp) else None)
+        what = "rows" if got and want and got[2] != want[2] else "the data of an asynchronous read port" \
+            if got and want and got[1] != want[1] else "the observations"
+        chk.violation(f"{what} after a delta cycle with {stats['max_rows']} queued row(s) differ from the array semantics: "
+                      f"observation {k} (step, read port data, rows[, sync read data]) is {got}, expected {want} "
+                      f"(trigger: {scn['trigger']}, other logic in the domain: {scn['other']})",
+                      dict(base, kind="memwrite-array", observation=k, impl=got, expected=want, classes=[]))
+        return
+    chk.distinct(("memwrite", repr(scn)), stats["multi_row"] > 0)
+    if stats["last_unchanged_earlier_changed"]:
+        chk.sample({"stream": "memwrite", "trigger": scn["trigger"], "write_ports": len(scn["grans"]), "other": scn["other"],
+                    "deltas_with_last_row_unchanged": stats["last_unchanged_earlier_changed"], "observations": len(ref)}, limit=6)
+
+
+# ------------------------------------------------------------------------------------------------
 # judging
 
 def judge_scenario(chk, case, pair):
@@ -1130,6 +1393,8 @@ def run(chk):
     workers = min(16, os.cpu_count() or 4)
     args = [(rng.getrandbits(48), per_job, n_perm, EXE) for _ in range(n_jobs)]
     targs = [(rng.getrandbits(48), 40 if quick else 150, EXE) for _ in range(16 if quick else 64)]
+    # drawn after the seeds of the older streams, which therefore see the same scenarios as before
+    wargs = [(rng.getrandbits(48), 10, n_perm) for _ in range(32 if quick else 240)]
     pair = {}
     with ProcessPoolExecutor(max_workers=workers) as ex:
         for job in ex.map(scenario_job, args, chunksize=1):
@@ -1140,6 +1405,9 @@ def run(chk):
         for out in ex.map(time_job, targs, chunksize=1):
             for c in out:
                 judge_time(chk, c)
+        for out in ex.map(memwrite_job, wargs, chunksize=1):
+            for c in out:
+                judge_memwrite(chk, c)
     try:
         chk.extra["hypothesis_witness"] = {
             "what": "memory row written by write ports of two domains at a coincident edge (DisjointWrites does not hold): "
@@ -1157,10 +1425,17 @@ def run(chk):
         "(re-drawn at every iteration); traces = every value read, elapsed_time() in fs at every wake-up, final value of every signal. "
         "M (implementation only): a memory with 1-2 write ports in one domain, read ports in another domain, in the same domain "
         "(transparent or not) and combinational, clocks that mostly coincide; rows are observed and part of the final state. "
+        "W (implementation only): a memory (depth 2-8, width 1-8, signed or not) with 1-3 write ports of one domain (granularity "
+        "none/1/2/4) or an added process that sets 1-3 rows per wake-up, 1-2 asynchronous read ports, optionally a counter and/or a "
+        "synchronous read port in the written domain; 3-9 steps (set port inputs / read addresses, then a clock edge by add_clock+tick, "
+        "by the testbench toggling the clock, or a toggle waking the writer process); after every set and every edge the read port "
+        "data and all rows are compared with the array semantics computed by the harness; distinct = scenario, non-trivial = some "
+        "delta queues two or more rows. "
         "T: Period(fs/ps/ns/us/Hz/kHz/MHz/GHz/arithmetic) vs exact rationals, toggle instants via edge/changed, delay chains, run_until deadlines. "
         "distinct = distinct request text; non-trivial = at least 3 observations")
     chk.assumptions += [
         "memories are not part of the C08 model (C11 models the write queue); their order-independence is explored on the implementation only (stream M)",
+        "stream W compares the implementation with the array semantics evaluated by the harness in Python (rows after all writes of a delta, later port wins per bit), not with a Lean model",
         "write ports of different domains that hit one row at a coincident edge are outside DisjointWrites (last writer wins in the real engine): see coverage.hypothesis_witness",
         "periods below 2 fs (half period 0: simulated time never advances) and above 10^13 fs (Period / 2 goes through a float above 2^53 fs) are not generated",
         "the iteration order of the local set `nearest_wakers` inside _PyTimeline.advance cannot be replaced from outside; it is left native",
@@ -1175,6 +1450,21 @@ def replay(chk, path):
     import json
     chk.lean()
     rep = json.load(open(path))["replay"]
+    if rep.get("stream") == "memwrite":
+        scn = rep["scenario"]
+        exp, stats = memwrite_expected(scn)
+        exp = [list(x) for x in exp]
+        orders = [tuple(rep[k]) for k in ("order_a", "order_b") if k in rep] or [("sorted", 0), ("reverse", 0)]
+        bad = False
+        for o in orders:
+            status, tr = run_memwrite(scn, o[0], o[1])
+            tr = [list(x) for x in tr]
+            k = next((i for i, (x, y) in enumerate(zip(tr, exp)) if x != y), None if len(tr) == len(exp) else min(len(tr), len(exp)))
+            print("impl", o, status, "= array semantics" if k is None and status == "ok" else f"differs at observation {k}: "
+                  f"{tr[k] if k is not None and k < len(tr) else None} expected {exp[k] if k is not None and k < len(exp) else None}")
+            bad = bad or status != "ok" or k is not None
+        print("replay:", "still failing" if bad else "passes now")
+        return common.EXIT_VIOLATION if bad else common.EXIT_OK
     if "job_seed" not in rep or rep.get("index") is None:
         print("replay: not a scenario replay (time-stream cases carry their data in the file)")
         return common.EXIT_OK
